@@ -94,6 +94,20 @@ def c13_2(rep, E, ix):
         txt = event_text(e)
         rep.check(not bad, "C13.2", ix.site(f, e.node), "mutation `%s` in __call__ targets only the fresh copy" % txt,
                   "%s; the mutated object may be %s" % (e.what, ", ".join(bad)), key="%s|%s" % (q, txt))
+    # ... and no container the caller passed in becomes part of the instance as it is (two instances made from one argument would share it)
+    seen_ = set()
+    from ..py.index import root_name, walk_shallow as _ws
+    rets_ = [n for n in _ws(f.node) if isinstance(n, ast.Return) and isinstance(n.value, ast.Name)]
+    prog_name = rets_[0].value.id if rets_ else None
+    for e in E.events.get(q, []):
+        txt = event_text(e)
+        into_prog = isinstance(e.node, ast.Assign) and any(root_name(t_) == prog_name for t_ in e.node.targets)
+        if e.stored is not None and txt not in seen_ and into_prog:
+            seen_.add(txt)
+            caller = sorted(o for o in e.stored.self_o if base_origin(o) == "PARAM:kwargs")
+            rep.check(not caller, "C13.2", ix.site(f, e.node), "`%s` stores a value computed for this instance (the caller's own containers are only read)" % txt,
+                      "the stored object may be an object the caller passed in, or a view of it (%s): instances created from the same argument share it" % ", ".join(caller),
+                      key="%s|caller|%s" % (q, txt))
     s = E.summ[q]
     if s.ret is None:
         raise Inconclusive("__call__ has no return value")
